@@ -320,7 +320,7 @@ func deepCopy(v any) any {
 type c04Site struct {
 	class string
 	path  []any // keys (string) and indices (int) from the root
-	noref bool  // a position whose $ref the loader does not resolve (header content, components.links): no reference injections here
+	noref bool  // a position whose $ref the loader does not resolve: none since cbb0d05 (kept for the replay format)
 }
 
 func sortedKeys(m map[string]any) []string {
@@ -399,12 +399,10 @@ func (w *c04Walker) content(path []any, v any) {
 				}
 				w.add("encoding", append(p, "encoding", n))
 				if hs := asMap(enc["headers"]); hs != nil {
-					old := w.noref
-					w.noref = true // the loader does not resolve references under encoding.headers (DESIGN §7 #41)
+					// (references under encoding.headers are resolved by the loader since cbb0d05)
 					for _, hn := range sortedKeys(hs) {
 						w.refOr("header", append(p, "encoding", n, "headers", hn), hs[hn], w.paramLike("header"))
 					}
-					w.noref = old
 				}
 			}
 		}
@@ -416,18 +414,13 @@ func (w *c04Walker) paramLike(class string) func(path []any, m map[string]any) {
 		w.add(class, path)
 		w.refOr("schema", append(path, "schema"), m["schema"], w.schema)
 		if m["content"] != nil {
-			old := w.noref
-			w.noref = w.noref || class == "header"
 			w.content(append(path, "content"), m["content"])
-			w.noref = old
 		}
 		if ex := asMap(m["examples"]); ex != nil {
-			old := w.noref
-			w.noref = true // the loader does not resolve references under parameter.examples
+			// (references under parameter / header examples are resolved by the loader since cbb0d05)
 			for _, n := range sortedKeys(ex) {
 				w.refOr("example", append(path, "examples", n), ex[n], func(pp []any, m map[string]any) { w.add("example", pp) })
 			}
-			w.noref = old
 		}
 	}
 }
@@ -524,9 +517,8 @@ func (w *c04Walker) doc(d map[string]any) {
 			}
 		})
 		sect("examples", "example", func(p []any, m map[string]any) { w.add("example", p) })
-		w.noref = true // references under components.links are never resolved by the loader (DESIGN §7 #13)
+		// (references under components.links are resolved by the loader since cbb0d05)
 		sect("links", "link", func(p []any, m map[string]any) { w.add("link", p) })
-		w.noref = false
 	}
 	if ps := asMap(d["paths"]); ps != nil {
 		w.add("paths", []any{"paths"})
@@ -868,6 +860,17 @@ func c04Injections() []c04Inj {
 		m["variables"] = map[string]any{"env": map[string]any{"default": "p"}, "other": map[string]any{"default": "o"}}
 	})
 	add("serverVar:no-default", "serverVar", always, delKey("default"))
+	// null entries: reported as invalid since 6bd2b91 (they used to make Validate panic)
+	add("root:servers-null-entry", "root", hasKey("servers"), func(_ *c04Builder, _ c04Site, m map[string]any) {
+		m["servers"] = append(append([]any{}, jlist(m["servers"])...), nil)
+	})
+	add("root:tags-null-entry", "root", always, func(_ *c04Builder, _ c04Site, m map[string]any) {
+		m["tags"] = append(append([]any{}, jlist(m["tags"])...), nil)
+	})
+	add("server:null-variable", "server", always, func(_ *c04Builder, _ c04Site, m map[string]any) {
+		m["url"] = "https://{env}.example.com"
+		m["variables"] = map[string]any{"env": nil}
+	})
 	// security schemes
 	add("sec:bad-type", "securityScheme", always, setKey("type", "magic"))
 	add("sec:http-bad-scheme", "securityScheme", func(m map[string]any) bool { return m["type"] == "http" }, setKey("scheme", "nope"))
@@ -1108,6 +1111,18 @@ func c04Injections() []c04Inj {
 			m["examples"] = map[string]any{"e": map[string]any{"value": nil}}
 		})
 		add("example-and-examples", cl, hasKey("schema"), nil)
+		add("example-and-empty-examples", cl, hasKey("schema"), nil)
+		add("examples:value-and-external", cl, hasKey("schema"), nil)
+		add("examples:external-and-mismatch", cl, hasKey("schema"), nil)
+		add("examples:external-and-match", cl, hasKey("schema"), nil)
+		add("examples:ref-One", cl, hasKey("schema"), func(_ *c04Builder, _ c04Site, m map[string]any) {
+			delete(m, "example")
+			m["examples"] = map[string]any{"r": map[string]any{"$ref": "#/components/examples/One"}}
+		})
+		add("examples:ref-Str", cl, hasKey("schema"), func(_ *c04Builder, _ c04Site, m map[string]any) {
+			delete(m, "example")
+			m["examples"] = map[string]any{"r": map[string]any{"$ref": "#/components/examples/Str"}}
+		})
 		add("examples:external-only", cl, hasKey("schema"), func(_ *c04Builder, _ c04Site, m map[string]any) {
 			delete(m, "example")
 			m["examples"] = map[string]any{"ext": map[string]any{"externalValue": "https://example.com/e.json"}}
@@ -1145,6 +1160,51 @@ func c04Injections() []c04Inj {
 	add("mediaType:encoding-header-ok", "mediaType", always, setKey("encoding", map[string]any{"p": map[string]any{"contentType": "text/plain",
 		"headers": map[string]any{"X-E": map[string]any{"schema": map[string]any{"type": "string"}}}}}))
 	add("mediaType:encoding-ok", "mediaType", always, setKey("encoding", map[string]any{"p": map[string]any{"contentType": "text/plain", "x-e": 1}}))
+	for _, st := range []string{"form", "simple", "label", "matrix", "spaceDelimited", "pipeDelimited", "deepObject", "weird", ""} {
+		for _, ex := range []any{nil, true, false} {
+			st, ex := st, ex
+			add(fmt.Sprintf("encoding:style=%s,explode=%v", st, ex), "encoding", always, func(_ *c04Builder, _ c04Site, m map[string]any) {
+				if st == "" {
+					delete(m, "style")
+				} else {
+					m["style"] = st
+				}
+				if ex == nil {
+					delete(m, "explode")
+				} else {
+					m["explode"] = ex
+				}
+			})
+		}
+	}
+	encHeader := func(key string, h map[string]any) func(*c04Builder, c04Site, map[string]any) {
+		return func(_ *c04Builder, _ c04Site, m map[string]any) {
+			hs := asMap(deepCopy(m["headers"]))
+			if hs == nil {
+				hs = map[string]any{}
+			}
+			hs[key] = deepCopy(h)
+			m["headers"] = hs
+		}
+	}
+	add("encoding:add-header-ok", "encoding", always, encHeader("X-New", map[string]any{"schema": map[string]any{"type": "string"}}))
+	add("encoding:add-header-named(dropped)", "encoding", always, encHeader("X-New", map[string]any{"name": "X", "schema": map[string]any{"type": "string"}}))
+	add("encoding:add-header-bad-key(dropped)", "encoding", always, encHeader("bad key!", map[string]any{"schema": map[string]any{"type": "string"}}))
+	add("encoding:add-header-ref", "encoding", always, encHeader("X-R", map[string]any{"$ref": "#/components/headers/Hdr"}))
+	add("encoding:add-header-ref-sibling(dropped)", "encoding", always, encHeader("X-R", map[string]any{"$ref": "#/components/headers/Hdr", "bogus": 1}))
+	add("encoding:bad-style-masked-by-header", "encoding", always, func(_ *c04Builder, _ c04Site, m map[string]any) {
+		m["style"] = "matrix"
+		m["headers"] = map[string]any{"X-E": map[string]any{"in": "header", "schema": map[string]any{"type": "string"}}}
+	})
+	add("encoding:allowReserved-contentType-ok", "encoding", always, func(_ *c04Builder, _ c04Site, m map[string]any) {
+		m["allowReserved"] = true
+		m["contentType"] = "application/json, text/plain"
+	})
+	add("mediaType:two-encodings-second-bad", "mediaType", always, setKey("encoding", map[string]any{
+		"a": map[string]any{"contentType": "text/plain"}, "b": map[string]any{"style": "label"}}))
+	add("mediaType:two-encodings-first-dropped-second-bad", "mediaType", always, setKey("encoding", map[string]any{
+		"a": map[string]any{"headers": map[string]any{"X-E": map[string]any{"name": "X", "schema": map[string]any{"type": "string"}}}},
+		"b": map[string]any{"bogus": 1}}))
 	add("mediaType:no-schema-with-example", "mediaType", always, func(_ *c04Builder, _ c04Site, m map[string]any) {
 		delete(m, "schema")
 		delete(m, "examples")
@@ -1314,13 +1374,33 @@ func applyInjection(b *c04Builder, inj c04Inj, site c04Site) bool {
 		}
 		m["examples"] = ex
 		return true
-	case "example-and-examples":
+	case "example-and-examples", "example-and-empty-examples":
 		v, ok := exampleFor(b.doc, m, true)
 		if !ok {
 			return false
 		}
 		m["example"] = v
-		m["examples"] = map[string]any{"e": map[string]any{"value": v}}
+		if inj.name == "example-and-examples" {
+			m["examples"] = map[string]any{"e": map[string]any{"value": v}}
+		} else {
+			m["examples"] = map[string]any{}
+		}
+		return true
+	case "examples:value-and-external":
+		v, ok := exampleFor(b.doc, m, true)
+		if !ok {
+			return false
+		}
+		delete(m, "example")
+		m["examples"] = map[string]any{"e": map[string]any{"value": v, "externalValue": "https://example.com/e.json"}}
+		return true
+	case "examples:external-and-mismatch", "examples:external-and-match":
+		v, ok := exampleFor(b.doc, m, inj.name == "examples:external-and-match")
+		if !ok {
+			return false
+		}
+		delete(m, "example")
+		m["examples"] = map[string]any{"a-ext": map[string]any{"externalValue": "https://example.com/e.json"}, "b": map[string]any{"value": v}}
 		return true
 	}
 	inj.apply(b, site, m)
@@ -1351,7 +1431,8 @@ func c04Case(doc map[string]any, detach []any, opts map[string]any, tag string, 
 // injections whose verdict can depend on a validation option
 func c04OptionSensitive(name string) bool {
 	for _, p := range []string{"extra:", "ref:", "toref:", "example", "schema:default", "schema:example", "schema:format", "schema:pattern",
-		"schema:nested", "schema:xml", "schema:discriminator", "mediaType:encoding-bogus", "mediaType:encoding-ok", "mediaType:no-schema", "param:content-"} {
+		"schema:nested", "schema:xml", "schema:discriminator", "mediaType:encoding-bogus", "mediaType:encoding-ok", "mediaType:no-schema", "param:content-",
+		"mediaType:two-encodings", "encoding:add-header", "encoding:bad-style"} {
 		if strings.HasPrefix(name, p) {
 			return true
 		}
